@@ -71,7 +71,12 @@ func runDeps(inp input, scratch string) core.Result {
 	if len(res.GoViolations) > 12 {
 		res.GoViolations = append(res.GoViolations[:12], fmt.Sprintf("... and %d more", len(res.GoViolations)-12))
 	}
+	if len(res.GoViolations) > 0 {
+		res.Class = failureClass(sr.calls)
+	}
 	res.Observed = obs
+	// the sweep is decided on the Go side; an empty Coq case keeps the case files uniform
+	res.Coq = "mk_case false [] [] []"
 	res.Nontrivial = len(sr.calls) > 0
 	res.Tags = []string{"deps_sweep"}
 	res.Notes = []string{fmt.Sprintf("swept %d functions of the dependency closure (%d child processes), %d alternatives, %d different from the declared type",
